@@ -525,8 +525,11 @@ def main():
     ev = {"property_id": prop, "tier": tier, "seed": seed, "level": level, "coverage": cov,
           "assumptions": meta.get("assumptions", []) + ASSUMPTIONS, "wall_s": round(wall, 2),
           "violations": len(violations)}
-    os.makedirs(os.path.join(HERE, "evidence"), exist_ok=True)
-    json.dump(ev, open(os.path.join(HERE, "evidence", f"{prop}.json"), "w"), indent=1, default=str)
+    # a run against a scratch copy (VERIF_REPO, used by tools/try_patch.sh) must not overwrite the evidence of /repo
+    scratch = os.path.realpath(source.repo_root()) != os.path.realpath("/repo")
+    evdir = os.path.join(HERE, ".scratch_evidence" if scratch else "evidence")
+    os.makedirs(evdir, exist_ok=True)
+    json.dump(ev, open(os.path.join(evdir, f"{prop}.json"), "w"), indent=1, default=str)
 
     # ---- report -----------------------------------------------------------------------------------------------------------
     print(f"[{prop}/{tier}] contracts={len(contracts)} obligations={n_obl} discharged={n_dis} refuted-clauses={len(by_clause)} "
